@@ -61,10 +61,10 @@ def handle (op : String) (j : Json) : Except String Json := do
       | .error e => errJ e
     let selIdx := (getNatList j "sel_idx").toOption
     let s : Option Json :=
-      if fmt = "fasta" then (specFasta bs).map (resJ ∘ resPick selIdx)
+      if fmt = "fasta" then ((specFasta bs).bind (resPick? selIdx)).map resJ
       else match docKline.find? (·.1 == fmt) with
-      | some (_, k, mk) => (specKline k mk bs).map (resJ ∘ resPick selIdx)
-      | none => if extended then none else (specParse fmt viaOpen bs).map (resJ ∘ resPick selIdx)
+      | some (_, k, mk) => ((specKline k mk bs).bind (resPick? selIdx)).map resJ
+      | none => if extended then none else ((specParse fmt viaOpen bs).bind (resPick? selIdx)).map resJ
     pure (reply m s)
   | "attrs" =>
     let fmt ← getStr j "fmt"
